@@ -305,6 +305,55 @@ def counter_effects():
     return {k: "[" + "; ".join(v) + "]" for k, v in effs.items()}
 
 
+def loop_prologue():
+    """What NestedSampler.nested_sampling_loop does between entry and the while loop, as far as the pool flag
+    is concerned: the order of check_resume() and of calls that may write a checkpoint.  -> Coq list peff."""
+    m = method("NestedSampler", "nested_sampling_loop")
+    if m is None:
+        raise Declined("NestedSampler.nested_sampling_loop not found")
+    effs = []
+    seen_while = False
+
+    def calls_in(node):
+        # source order
+        out = []
+        for n in ast.walk(node):
+            if isinstance(n, ast.Call):
+                out.append(n)
+        return sorted(out, key=lambda c: (c.lineno, c.col_offset))
+
+    def stmts(body):
+        nonlocal seen_while
+        for st in body:
+            if seen_while:
+                return
+            if isinstance(st, ast.While):
+                seen_while = True
+                return
+            if isinstance(st, ast.If):
+                if any(isinstance(b, ast.Return) for b in st.body) and not st.orelse:
+                    continue            # a path that leaves before the loop (finished run, prior sampling)
+                stmts(st.body)
+                stmts(st.orelse)
+                continue
+            if isinstance(st, (ast.For, ast.With, ast.Try)):
+                raise Declined(f"loop prologue contains a {type(st).__name__} statement")
+            for c in calls_in(st):
+                d = dotted(c.func)
+                if d == "self.check_resume":
+                    effs.append("PCheckResume")
+                elif d in ("self.update_state", "self.checkpoint"):
+                    effs.append("PUpdateState")
+                elif d and d.startswith("self.") and d not in ("self.initialise", "self.close_pool", "self.finalise"):
+                    effs.append("PSkip")
+    stmts(m[1].body)
+    if not seen_while:
+        raise Declined("nested_sampling_loop has no while loop")
+    if "PCheckResume" not in effs:
+        raise Declined("nested_sampling_loop does not call check_resume before the loop")
+    return "[" + "; ".join(effs) + "]"
+
+
 TARGETS = [("NestedSampler", "cls_sampler"), ("ImportanceNestedSampler", "cls_ins_sampler"),
            ("FlowProposal", "cls_proposal"), ("AugmentedFlowProposal", "cls_proposal"),
            ("RejectionProposal", "cls_proposal"), ("ImportanceFlowProposal", "cls_ins_proposal"),
@@ -319,3 +368,4 @@ if __name__ == "__main__":
         except Declined as e:
             print(c, "declined:", e)
     print(counter_effects())
+    print(loop_prologue())
